@@ -178,9 +178,70 @@ def loopStep (j : Json) : Json :=
         | none => o
   | _, _ => Drv.bad "loop: cannot decode"
 
+/-- A loop nested in the body of another: some mark stands between an earlier mark and the jump
+    that closes that earlier mark. -/
+def isNested (stmts : List Json) : Bool :=
+  let kinds : List (String × String) := stmts.filterMap fun s =>
+    match str? s "mark" with
+    | some m => some ("mark", m)
+    | none => match val? s "jump" with
+      | some x => (str? x "mark").map fun m => ("jump", m)
+      | none => none
+  -- positions: mark a … mark b … jump b … jump a
+  let rec go : List (String × String) → List String → Bool
+    | [], _ => false
+    | ("mark", m) :: rest, open_ => go rest (m :: open_)
+    | ("jump", m) :: rest, open_ =>
+      -- a jump to a mark that is not the innermost open one closes over an inner loop
+      (match open_ with
+       | top :: below => (top != m && below.contains m) || go rest (if top == m then below else open_)
+       | [] => go rest open_)
+    | _ :: rest, open_ => go rest open_
+  -- two marks open at once and both jumped to: nested
+  let marks := kinds.filter (·.1 == "mark") |>.map (·.2)
+  let rec inner : List (String × String) → List String → Bool
+    | [], _ => false
+    | ("mark", m) :: rest, open_ => (!open_.isEmpty && rest.any (fun k => k == ("jump", m)) &&
+          open_.any (fun o => rest.any (fun k => k == ("jump", o)))) || inner rest (m :: open_)
+    | ("jump", m) :: rest, open_ => inner rest (open_.filter (· != m))
+    | _ :: rest, open_ => inner rest open_
+  marks.length ≥ 2 && (inner kinds [] || go kinds [])
+
+def rowsOf (j : Json) : Option (List String) :=
+  match j.getObjVal? "rows" with
+  | .ok (.arr rs) => some (rs.toList.map Json.compress)
+  | _ => none
+
+def subMultiset (xs ys : List String) : Bool :=
+  let rec go : List String → List String → Bool
+    | [], _ => true
+    | x :: rest, ys => if ys.contains x then go rest (ys.erase x) else false
+  go xs ys
+
+/-- Open finding C12-nested-loop-loses-rows: in a nested loop the outer mark's termination signal
+    overtakes travelers waiting in the inner jump's queue, the outer mark closes early and their
+    later passes are lost (schedule dependent).  In that region the implementation's answer (the
+    `hint`, one row list or several "unstable" variants) is accepted as the bug-mirroring MODEL
+    answer iff it only LOSES rows: every variant is a sub-multiset of the SPEC rows. -/
+def nestedStep (j : Json) (spec : Json) : Json :=
+  match rowsOf spec, val? j "hint" with
+  | some want, some hint =>
+    let variants : List Json := match hint.getObjVal? "unstable" with
+      | .ok (.arr vs) => vs.toList
+      | _ => [hint]
+    let ok := variants.all fun v => match rowsOf v with
+      | some got => subMultiset got want
+      | none => false
+    if Json.compress hint == Json.compress spec then spec
+    else if ok then hint.mergeObj (Json.mkObj [("spec", spec), ("kf", Json.str "C12-nested-loop-loses-rows")])
+    else spec
+  | _, _ => spec
+
 def step (_ : Unit) (j : Json) : Unit × Json :=
   match str? j "op" with
-  | some "loop" => ((), loopStep j)
+  | some "loop" =>
+    let spec := loopStep j
+    if isNested ((arr? j "stmts").getD []) then ((), nestedStep j spec) else ((), spec)
   | _ => ((), Drv.bad "unknown op")
 
 def main : IO Unit := Drv.runLoop () step
